@@ -220,4 +220,15 @@ example : Reach cfg 5 (fun i => i == 1) (scheduleW cfg 5 (fun i => i == 1) (fun 
     mainReturned (scheduleW cfg 5 (fun i => i == 1) (fun i => i == 3) 280 3 init) :=
   ⟨scheduleW_sound cfg 5 _ _ 280 3 init, by unfold mainReturned; decide⟩
 
+/-- the run the driver makes for `closea 2 4 2 2 15 19` (fifth round: two self-named closers, one of them wired with the App
+    and created before it, plus the two type-named closers wired with the App — four registered closer components, closer 2
+    failing) and for the first App of `closed 3 1 qt.ls 77` (three ordinary closers + dupb's Sess + the function-local closer):
+    runs of the system that end with Close returned, every closer invoked once -/
+example : Reach cfg 4 (fun i => (4 : Nat).testBit i) (schedule cfg 4 (fun i => (4 : Nat).testBit i) 240 19 init) ∧
+    mainReturned (schedule cfg 4 (fun i => (4 : Nat).testBit i) 240 19 init) :=
+  ⟨schedule_sound cfg 4 _ 240 19 init, by unfold mainReturned; decide⟩
+
+example : (schedule cfg 5 (fun i => (1 : Nat).testBit i) 280 77 init).mainPc = 3 ∧
+    (List.range 5).all (fun i => (schedule cfg 5 (fun i => (1 : Nat).testBit i) 280 77 init).calls i == 1) = true := by decide
+
 end Ioc.C14
